@@ -364,6 +364,11 @@ type dstPlugin struct {
 	gen      int
 	mu       sync.Mutex
 	loopDone chan struct{} // closed when the goroutine that receives the writes has ended
+
+	// batching mode
+	pending  []pendRec // written, not yet answered
+	sent     int       // records the engine handed to the transport
+	consumed int       // acks the engine took from the transport
 }
 
 var _ connectorPlugin.DestinationPlugin = (*dstPlugin)(nil)
@@ -397,8 +402,13 @@ func (p *dstPlugin) isDone() bool {
 }
 
 func (p *dstPlugin) Run(ctx context.Context, stream pconnector.DestinationRunStream) error {
-	s, ok := stream.(*builtin.InMemoryDestinationRunStream)
-	if !ok {
+	var s *builtin.InMemoryDestinationRunStream
+	switch x := stream.(type) {
+	case *builtin.InMemoryDestinationRunStream:
+		s = x
+	case *lagStream:
+		s = x.InMemoryDestinationRunStream
+	default:
 		return fmt.Errorf("fake destination: unexpected stream type %T", stream)
 	}
 	s.Init(ctx)
@@ -411,6 +421,10 @@ func (p *dstPlugin) Run(ctx context.Context, stream pconnector.DestinationRunStr
 	p.loopDone = make(chan struct{})
 	loopDone := p.loopDone
 	p.mu.Unlock()
+	if p.batching() {
+		go p.runBatching(server, loopDone)
+		return nil
+	}
 	go func() {
 		defer close(loopDone)
 		for {
@@ -501,7 +515,182 @@ func (p *dstPlugin) LifecycleOnDeleted(context.Context, pconnector.DestinationLi
 	return pconnector.DestinationLifecycleOnDeletedResponse{}, nil
 }
 func (p *dstPlugin) NewStream() pconnector.DestinationRunStream {
+	if p.batching() {
+		return &lagStream{InMemoryDestinationRunStream: &builtin.InMemoryDestinationRunStream{}, p: p}
+	}
 	return &builtin.InMemoryDestinationRunStream{}
+}
+
+// ---------------------------------------------------------------------------
+// batching destination (Topo.AckBatch > 1): one ack response covers several
+// written records, and it may reach the engine before the Write call of the
+// last of them has returned
+// ---------------------------------------------------------------------------
+
+const (
+	batchDelay = 3 * time.Millisecond // an incomplete batch is answered this long after its first verdict
+	lagMax     = 8 * time.Millisecond // a Write is handed back at the latest after this
+	lagAfter   = 3 * time.Millisecond // ... or this long after the response that covers it was consumed
+)
+
+func (p *dstPlugin) batching() bool { return p.kind == "d" && p.w.ackBatch > 1 }
+
+type pendRec struct {
+	pos []byte
+	src string
+	k   int
+}
+
+// tryVerdict is verdict without blocking.
+func (p *dstPlugin) tryVerdict() (ok bool, have bool) {
+	st := p.st
+	st.mu.Lock()
+	defer st.mu.Unlock()
+	if len(st.verdicts) > 0 {
+		v := st.verdicts[0]
+		st.verdicts = st.verdicts[1:]
+		return v, true
+	}
+	if p.w.isAuto() {
+		return true, true
+	}
+	return false, false
+}
+
+func (p *dstPlugin) runBatching(server pconnector.DestinationRunStreamServer, loopDone chan struct{}) {
+	var recvWg sync.WaitGroup
+	recvWg.Add(1)
+	go func() { // receiver: the plugin keeps taking writes while earlier ones wait for their answer
+		defer recvWg.Done()
+		for {
+			req, err := server.Recv()
+			if err != nil {
+				return
+			}
+			p.mu.Lock()
+			for _, r := range req.Records {
+				src, k := ParsePos(r.Position)
+				p.w.Log(Ev{K: "dwrite", C: p.st.id, S: src, N: k, A: r.Metadata["verif.p1"], X: r.Metadata["verif.chain"]})
+				p.pending = append(p.pending, pendRec{pos: r.Position, src: src, k: k})
+			}
+			p.mu.Unlock()
+		}
+	}()
+	defer func() {
+		recvWg.Wait()
+		close(loopDone)
+	}()
+	for {
+		var acks []pconnector.DestinationRunResponseAck
+		var oks []bool
+		var first time.Time
+		for {
+			if p.isDone() {
+				return
+			}
+			for {
+				p.mu.Lock()
+				more := len(p.pending) > len(acks)
+				var r pendRec
+				if more {
+					r = p.pending[len(acks)]
+				}
+				p.mu.Unlock()
+				if !more || len(acks) >= p.w.ackBatch {
+					break
+				}
+				v, have := p.tryVerdict()
+				if !have {
+					break
+				}
+				a := pconnector.DestinationRunResponseAck{Position: r.pos}
+				if !v {
+					a.Error = "fake destination: record refused"
+				}
+				if len(acks) == 0 {
+					first = time.Now()
+				}
+				acks = append(acks, a)
+				oks = append(oks, v)
+			}
+			if len(acks) >= p.w.ackBatch || (len(acks) > 0 && time.Since(first) >= batchDelay) {
+				break
+			}
+			time.Sleep(100 * time.Microsecond)
+		}
+		p.mu.Lock()
+		recs := append([]pendRec{}, p.pending[:len(acks)]...)
+		p.pending = p.pending[len(acks):]
+		p.mu.Unlock()
+		for i, r := range recs {
+			x := "ok"
+			if !oks[i] {
+				x = "nack"
+			}
+			// logged before the response is sent so that no consequence of it can precede it
+			p.w.Log(Ev{K: "dconf", C: p.st.id, S: r.src, N: r.k, X: x})
+		}
+		if err := server.Send(pconnector.DestinationRunResponse{Acks: acks}); err != nil {
+			for i := len(recs) - 1; i >= 0; i-- {
+				p.w.Log(Ev{K: "dunconf", C: p.st.id, S: recs[i].src, N: recs[i].k})
+			}
+			return
+		}
+	}
+}
+
+// lagStream is the in-memory stream with a client whose Send returns late: a Write that arrives while
+// earlier records are still unanswered (it may complete a batch) is handed back to the engine only
+// after the response covering it was consumed by the engine, plus lagAfter (at most lagMax).
+type lagStream struct {
+	*builtin.InMemoryDestinationRunStream
+	p *dstPlugin
+}
+
+func (s *lagStream) Client() pconnector.DestinationRunStreamClient {
+	return &lagClient{inner: s.InMemoryDestinationRunStream.Client(), p: s.p}
+}
+
+type lagClient struct {
+	inner pconnector.DestinationRunStreamClient
+	p     *dstPlugin
+}
+
+func (c *lagClient) Send(req pconnector.DestinationRunRequest) error {
+	p := c.p
+	p.mu.Lock()
+	lag := p.sent > p.consumed // earlier records are unanswered
+	p.sent += len(req.Records)
+	mine := p.sent
+	p.mu.Unlock()
+	if err := c.inner.Send(req); err != nil {
+		return err
+	}
+	if !lag {
+		return nil
+	}
+	deadline := time.Now().Add(lagMax)
+	for time.Now().Before(deadline) && !p.isDone() {
+		p.mu.Lock()
+		covered := p.consumed >= mine
+		p.mu.Unlock()
+		if covered {
+			time.Sleep(lagAfter)
+			break
+		}
+		time.Sleep(100 * time.Microsecond)
+	}
+	return nil
+}
+
+func (c *lagClient) Recv() (pconnector.DestinationRunResponse, error) {
+	resp, err := c.inner.Recv()
+	if err == nil {
+		c.p.mu.Lock()
+		c.p.consumed += len(resp.Acks)
+		c.p.mu.Unlock()
+	}
+	return resp, err
 }
 
 // ---------------------------------------------------------------------------
